@@ -164,6 +164,50 @@ pub fn queue_inv(cap: usize, qlen: usize, q: &[QEntry; MAXS]) -> bool {
 
 /// pick an arbitrary representation state satisfying I1, I2
 pub fn gen_pre(cap: usize, inflight_ok: bool) -> Pre {
+    gen_pre_q(cap, inflight_ok, cap)
+}
+
+/// a concrete (non-symbolic) state: slot 0 occupied iff `held`, nothing queued,
+/// canonical free list - for the groups a multi-group harness is not about
+pub fn fixed_pre(cap: usize, held: bool) -> Pre {
+    let mut p = Pre {
+        cap,
+        occ: [false; MAXS],
+        nf: [0; MAXS],
+        free_head: 0,
+        filled: 0,
+        qlen: 0,
+        q: [QEntry { slot: 0, inflight: false }; MAXS],
+        reg: false,
+        reg_t: 0,
+        sleeping: false,
+        last_t: 0,
+        task_woken: false,
+    };
+    let mut i = 0;
+    while i < cap {
+        p.nf[i] = i + 1;
+        i += 1;
+    }
+    if held && cap > 0 {
+        p.occ[0] = true;
+        p.filled = 1;
+        p.free_head = 1;
+    }
+    p
+}
+
+/// as `gen_pre`, with at most `qmax` ready-queue entries (`qmax == 0`: the
+/// queue is concretely empty, which keeps a poll of this collection trivial
+/// for symex - used for the groups a multi-group harness is not about)
+pub fn gen_pre_q(cap: usize, inflight_ok: bool, qmax: usize) -> Pre {
+    // qmax == 9: concrete state holding one child; qmax == 8: concrete empty state
+    if qmax == 9 {
+        return fixed_pre(cap, true);
+    }
+    if qmax == 8 {
+        return fixed_pre(cap, false);
+    }
     #[cfg(futures_buffered_verif_model)]
     if inflight_ok {
         v::model_waker::set_two_phase(true);
@@ -194,9 +238,10 @@ pub fn gen_pre(cap: usize, inflight_ok: bool) -> Pre {
     }
     p.free_head = nd::below(cap as u8 + 1) as usize;
     nd::assume(slotmap_inv(cap, &p.occ, &p.nf, p.free_head, p.filled), "I1");
-    p.qlen = nd::below(cap as u8 + 1) as usize;
+    let qmax = if qmax < cap { qmax } else { cap };
+    p.qlen = if qmax == 0 { 0 } else { nd::below(qmax as u8 + 1) as usize };
     let mut k = 0;
-    while k < cap {
+    while k < qmax {
         p.q[k].slot = nd::below(cap as u8) as usize;
         p.q[k].inflight = if inflight_ok { nd::flag() } else { false };
         k += 1;
@@ -875,10 +920,53 @@ pub fn budget(stop: usize) {
     } else {
         vassert!(gh.total_child_polls == if stop == 0 { 1 } else { stop }, "C12:child polled more often than it was notified");
         vassert!(s.qlen == 0, "C14:ready queue not drained");
+        vassert!(s.qlen == 0, "C12:a slot is queued although nobody invoked its waker since its last poll");
         // woken only as a consequence of a child-waker invocation
         vassert!(gh.child_wakes > 0 || gh.task_wakes[t] == 0, "C14:task woken although no child waker was invoked");
         vassert!(gh.child_wakes == 0 || gh.task_wakes[t] >= 1, "C01:self-waking child did not notify the task");
         vcover!(true, "cover:within_budget");
     }
+    core::mem::forget(f);
+}
+
+/// a child that never completes and never wakes itself
+pub struct Idle;
+
+impl core::future::Future for Idle {
+    type Output = u8;
+    fn poll(self: Pin<&mut Self>, _cx: &mut Context<'_>) -> Poll<u8> {
+        g().total_child_polls += 1;
+        Poll::Pending
+    }
+}
+
+/// More queued children than the per-poll budget, none of which wakes itself:
+/// the call must stop after BUDGET child polls AND wake its task, because the
+/// children left in the queue have already been notified (C13 / C01). Fully
+/// concrete state (62 held, 62 queued): symex folds it to constants.
+pub fn budget_many() {
+    const N: usize = BUDGET + 1;
+    gh::reset();
+    #[cfg(futures_buffered_verif_model)]
+    v::model_waker::set_big_queue(true);
+    let gh = g();
+    let t = nd::below(2) as usize;
+    let w = gh::task_waker(t);
+    let mut q = [QEntry { slot: 0, inflight: false }; N];
+    let mut k = 0;
+    while k < N {
+        q[k].slot = k;
+        k += 1;
+    }
+    let mut f: FuturesUnorderedBounded<Idle> = v::fub_from_parts(N, |_| Ok(Idle), N, N, &q, &w, false);
+    gh.task_wakes = [0; 2];
+    let mut cx = Context::from_waker(&w);
+    let r = Pin::new(&mut f).poll_next(&mut cx);
+    vassert!(matches!(r, Poll::Pending), "C02:a pending child produced an item");
+    vassert!(gh.total_child_polls == BUDGET, "C13:the per-poll budget of child polls was not respected");
+    vassert!(gh.task_wakes[t] >= 1, "C13:poll stopped at its budget with notified children still queued, task not woken");
+    vassert!(gh.task_wakes[t] >= 1, "C01:poll stopped at its budget with notified children still queued, task not woken");
+    vassert!(gh.task_wakes[1 - t] == 0, "C01:a task waker that was never registered was invoked");
+    vcover!(true, "cover:budget_exhausted");
     core::mem::forget(f);
 }
